@@ -67,8 +67,14 @@ pub struct TapLog {
     pub record: bool,
     pub keys: Vec<KeyInfo>,
     pub pkts: Vec<PktRec>,
-    /// frames to write over the payload of the next packet sealed by (inc, space)
-    pub inject: BTreeMap<(u32, Space), VecDeque<Vec<u8>>>,
+    /// frames to write into the next packet sealed by (inc, space): (bytes, overlay). Overlay
+    /// writes over trailing PADDING only (the genuine frames stay); replace overwrites the whole
+    /// payload and pads the rest.
+    pub inject: BTreeMap<(u32, Space), VecDeque<(Vec<u8>, bool)>>,
+    /// optional patch applied to the transport parameters a node's sessions announce
+    pub params_patch: BTreeMap<u32, Arc<dyn Fn(Vec<u8>) -> Vec<u8> + Send + Sync>>,
+    pub params_patched: u64,
+    pub params_patch_rejected: u64,
     pub injected: u64,
     /// sessions created: (node, inc, side)
     pub sessions: Vec<(u32, u32, bool)>,
@@ -138,14 +144,30 @@ impl PacketKey for TapPacketKey {
             if info.owner != NO_INC {
                 let cap = end - header_len;
                 if let Some(q) = t.inject.get_mut(&(info.owner, info.space)) {
-                    if q.front().is_some_and(|f| f.len() <= cap) {
-                        let f = q.pop_front().unwrap();
-                        buf[header_len..header_len + f.len()].copy_from_slice(&f);
-                        for b in &mut buf[header_len + f.len()..end] {
-                            *b = 0;
+                    if let Some((f, overlay)) = q.front().cloned() {
+                        if overlay {
+                            // find the trailing padding
+                            let mut pad_start = end;
+                            while pad_start > header_len && buf[pad_start - 1] == 0 {
+                                pad_start -= 1;
+                            }
+                            // keep one byte of distance: a zero byte may be the tail of a frame
+                            let pad_start = (pad_start + 1).min(end);
+                            if end - pad_start >= f.len() {
+                                q.pop_front();
+                                buf[pad_start..pad_start + f.len()].copy_from_slice(&f);
+                                rewritten = true;
+                                t.injected += 1;
+                            }
+                        } else if f.len() <= cap {
+                            q.pop_front();
+                            buf[header_len..header_len + f.len()].copy_from_slice(&f);
+                            for b in &mut buf[header_len + f.len()..end] {
+                                *b = 0;
+                            }
+                            rewritten = true;
+                            t.injected += 1;
                         }
-                        rewritten = true;
-                        t.injected += 1;
                     }
                 }
             }
@@ -309,6 +331,27 @@ impl Session for TapSession {
     }
 }
 
+/// Apply the node's transport-parameter patch: serialize, patch the TLV bytes, parse back with
+/// quinn's own (public) parser as the *reader* would. Values the parser rejects cannot be sent
+/// through the real TLS session and are counted.
+fn patch_params(tap: &Tap, node: u32, params: &TransportParameters, reader: Side) -> TransportParameters {
+    let patch = tap.lock().unwrap().params_patch.get(&node).cloned();
+    let Some(patch) = patch else { return *params };
+    let mut bytes = Vec::new();
+    params.write(&mut bytes);
+    let patched = patch(bytes);
+    match TransportParameters::read(reader, &mut &patched[..]) {
+        Ok(p) => {
+            tap.lock().unwrap().params_patched += 1;
+            p
+        }
+        Err(_) => {
+            tap.lock().unwrap().params_patch_rejected += 1;
+            *params
+        }
+    }
+}
+
 pub struct TapClientConfig {
     pub inner: Arc<dyn crypto::ClientConfig>,
     pub tap: Tap,
@@ -317,7 +360,8 @@ pub struct TapClientConfig {
 
 impl crypto::ClientConfig for TapClientConfig {
     fn start_session(self: Arc<Self>, version: u32, server_name: &str, params: &TransportParameters) -> Result<Box<dyn Session>, ConnectError> {
-        let inner = self.inner.clone().start_session(version, server_name, params)?;
+        let patched = patch_params(&self.tap, self.node, params, Side::Server);
+        let inner = self.inner.clone().start_session(version, server_name, &patched)?;
         let owner = {
             let mut t = self.tap.lock().unwrap();
             let inc = t.inc;
@@ -343,7 +387,8 @@ impl crypto::ServerConfig for TapServerConfig {
         self.inner.retry_tag(version, orig_dst_cid, packet)
     }
     fn start_session(self: Arc<Self>, version: u32, params: &TransportParameters) -> Box<dyn Session> {
-        let inner = self.inner.clone().start_session(version, params);
+        let patched = patch_params(&self.tap, self.node, params, Side::Client);
+        let inner = self.inner.clone().start_session(version, &patched);
         let owner = {
             let mut t = self.tap.lock().unwrap();
             let inc = t.inc;
